@@ -434,11 +434,23 @@ def predicate(c, obs):
                     _short(r["tfa"][1]), len(prev_data), need)
         if r["tfa"][0] == "ok":
             val = r["tfa"][1]
+            # does the wrapper certainly hold a value?  (decoded one / set one; a close empties it, after a reload this
+            # predicate does not know).  Reading an EMPTY wrapper panics by design; reading one that holds a value must not -
+            # in particular not after a manual serialize(), which only writes the value back
+            holds = val is not None
             for (k, x), st in zip(ins["ops"], r["steps"]):
                 if st[0] == "panic":
                     if k in (1, 6, 8, 9):
                         return at + "%s panicked" % OPNAME[k]
+                    if k == 5 and holds is True:
+                        return at + "reading the wrapper (Deref) panicked although it holds a value (decoded or set earlier in this instruction, not closed, not reloaded)"
                     continue
+                if k in (1, 2) and st[0] == "ok":
+                    holds = True
+                elif k == 7:
+                    holds = None
+                elif k == 9 and st[0] == "ok":
+                    holds = False
                 if k == 1:
                     if ins["writable"]:
                         if st[0] != "ok":
